@@ -1258,7 +1258,7 @@ func (e *ObjectConsExpr) Value(ctx *hcl.EvalContext) (cty.Value, hcl.Diagnostics
 	}
 
 	if !known {
-		return cty.DynamicVal, diags
+		return cty.DynamicVal.WithMarks(marks...), diags
 	}
 
 	return cty.ObjectVal(vals).WithMarks(marks...), diags
